@@ -103,8 +103,8 @@ type Order struct {
 	At     time.Time `valid:"required"`
 	Phone  string    `valid:"exist,phone" v2:"required"`
 	Paid   time.Time
-	Nick   string    `valid:"either=1"`
-	Amount float64   `valid:"to=1~5" v2:"le=2"`
+	Nick   string  `valid:"either=1"`
+	Amount float64 `valid:"to=1~5" v2:"le=2"`
 }
 
 var _ = Misc{}.hidden
@@ -243,9 +243,15 @@ const NDyn = 760
 
 func dynType(i int) reflect.Type {
 	nf := 1 + i%3
+	if i%32 == 7 {
+		nf = 40 // a wide struct now and then
+	}
 	fields := make([]reflect.StructField, 0, nf)
 	for f := 0; f < nf; f++ {
 		name := dynFieldNames[(i+f*2)%len(dynFieldNames)]
+		if f >= len(dynFieldNames) {
+			name += fmt.Sprint("F", f)
+		}
 		isInt := name == "Age" || name == "Count"
 		var tag string
 		r1 := (i/3 + f) % 5
@@ -315,11 +321,19 @@ var ruleSets = []map[string]string{
 	{"AppName": "required,le=2", "Amount": "le=3", "Note": "required"},
 	{"Name": "odd", "Age": "even"},
 	{"OrderNo": "required", "TradeNo": "required,le=0"},
+	// 7: built with RM.Set("Name,Code", rules...) from a slice the caller keeps (several field names, several rules, an empty rule)
+	{"Name": "required,,le=2", "Code": "required,,le=2"},
 }
+
+// multiSetRules is the slice handed (spread) to RM.Set for rule set 7; the caller keeps it.
+func multiSetRules() []string { return []string{"required", "", "le=2"} }
 
 func mkRule(id int) valid.RM {
 	if id <= 0 || id >= len(ruleSets) {
 		return nil
+	}
+	if id == 7 {
+		return valid.NewRule().Set("Name,Code", multiSetRules()...)
 	}
 	rm := valid.NewRule()
 	// fixed key order: RM.Set has no order dependence, this is for determinism of allocation only
